@@ -171,7 +171,7 @@ def client_case(ctx, desc, server_keys, client_types, disabled, kex, lie_at=0, s
     lab = kexlab.Lab(rng, kex, None, host_keys=[], client_kw=dict(disabled_algorithms={"keys": list(disabled)}))
     lab.ts.server_key_dict = dict(server_keys)
     lab.tc.get_security_options().key_types = list(client_types)
-    fp = ("client", desc["negotiate"], desc["signed_as"], desc["shape"], tuple(sorted(disabled)), kex, lie_at)
+    fp = ("client", desc.get("kind"), desc["negotiate"], desc["signed_as"], desc["shape"], tuple(sorted(disabled)), kex, lie_at)
     rt = kexlab.reply_type(kex)
     try:
         ok = lab.start(timeout=60)
@@ -231,6 +231,15 @@ def client_case(ctx, desc, server_keys, client_types, disabled, kex, lie_at=0, s
                 ctx.count("client.hostile_signatures_rejected")
         elif mismatch or dis:
             ctx.count("client.hostile_signatures_judged")
+            if desc.get("kind") == "rsa-acceptable":
+                # sanity of the cell: the substitute really is advertised by the server and offered by the client
+                exs = kexlab.exchanges(lab.events(), "c")
+                mine_l = kexinit_lists(exs[lie_at]["i_out"]["payload"])[1]
+                theirs_l = kexinit_lists(exs[lie_at]["i_in"]["payload"])[1]
+                sfx = CERT if neg.endswith(CERT) else ""
+                if sig_name + sfx in mine_l and sig_name + sfx in theirs_l and sig_name not in disabled:
+                    ctx.count("client.acceptable_substitute_judged")
+                    ctx.count("client.acceptable_substitute_judged.%s" % ("cert" if sfx else "plain"))
             if accepted:
                 sigtxt = "client completed kex with reply signature algorithm != negotiated host key algorithm (%s)%s" % (
                     mechanism(neg, sig_name), " with that algorithm disabled" if dis else "")
@@ -266,6 +275,13 @@ def client_cases(ctx):
                     dsets.append(tuple(x for x in RSA if x != N))
                 for d in dsets:
                     add(kind="rsa", shape=shape, N=N, A=A, disabled=d)
+    # the substitute is fully acceptable elsewhere: the server advertises all three RSA algorithms for this key,
+    # the client has all three enabled and offers them; only the *negotiated* one may sign
+    for shape in ("plain", "cert"):
+        for N in RSA:
+            for A in RSA:
+                if A != N:
+                    add(kind="rsa-acceptable", shape=shape, N=N, A=A, disabled=())
     # ECDSA: key of another curve registered under the negotiated name
     for N in ECDSA:
         for Y in ECDSA:
@@ -309,7 +325,7 @@ def run_client_case(ctx, c, kex, lie_at, sample):
     def relabel(i, requested, _A=A, _at=lie_at):
         return dict(label=_A) if i == _at else None
 
-    if kind in ("rsa", "honest") and family(N) == "rsa":
+    if kind in ("rsa", "rsa-acceptable", "honest") and family(N) == "rsa":
         base = cert_key("rsa") if shape == "cert" else kexlab.hostkey("ssh-rsa")
         blob = base.public_blob.key_blob if shape == "cert" else None
         key = EvilHostKey(base, lying, blob=blob)
@@ -338,7 +354,12 @@ def run_client_case(ctx, c, kex, lie_at, sample):
         types = [N]  # preferred_keys appends the -cert variant; the server only has the cert name
     else:
         types = [N] + [x for x in (RSA if family(N) == "rsa" else ()) if x != N and x not in disabled]
-    client_case(ctx, desc, {wire_name: key}, types, disabled, kex, lie_at=lie_at, sample=sample,
+    table = {wire_name: key}
+    if kind == "rsa-acceptable":
+        sfx = CERT if shape == "cert" else ""
+        table = {n + sfx: key for n in RSA}
+        types = [N] + [x for x in RSA if x != N]
+    client_case(ctx, desc, table, types, disabled, kex, lie_at=lie_at, sample=sample,
                 positive=(kind == "honest" or (A == N and kind != "blob")))
 
 
@@ -743,6 +764,9 @@ def run(ctx):
     ctx.require("server.multi_request_sessions", 60)
     ctx.require("server.requests_after_a_prior_request_for_the_same_key", 40)
     ctx.require("server.multi_positive_controls_accepted", 10)
+    ctx.require("client.acceptable_substitute_judged", 10)
+    ctx.require("client.acceptable_substitute_judged.plain", 5)
+    ctx.require("client.acceptable_substitute_judged.cert", 5)
     ctx.require("client.blob_mismatch_judged", 10)
     ctx.require("server.blob_mismatch_requests_judged", 10)
     ctx.require("client.replies_judged", 60)
